@@ -11,7 +11,8 @@ CONSTANTS
   MaxCells = 3
   MaxMerges = 2
   MaxSheets = 2
-  Rots = {0, 5}
+  KindSeq <- KindsAll
+  Rots = {0}
   Layouts <- LayStd
 INVARIANTS TypeOK PlacedByRef FunctionLike MergeBlank
 PROPERTIES Locality
